@@ -6,6 +6,7 @@ import (
 	"os"
 	"path/filepath"
 	"sort"
+	"strings"
 
 	"github.com/jhalter/mobius/hotline"
 	"github.com/jhalter/mobius/internal/mobius"
@@ -274,6 +275,140 @@ func genC05(cs *CaseSet, rng *Rng, tier string, dir string) {
 				one(cls, bitmapOf(rest...), "governing-minus-one")
 			}
 		}
+	}
+	// field contents: crafted path fields ("." / ".." items, separators inside items, declared count off by one)
+	// against the upload-folder and drop-box rules; the EFFECT is observed (a drop box's content revealed, an
+	// upload granted into a directory that is neither an upload folder nor a drop box)
+	must(os.MkdirAll(filepath.Join(root, "dest", "Drop Box"), 0755))
+	must(os.WriteFile(filepath.Join(root, "dest", "Drop Box", "secret.txt"), []byte("s"), 0644))
+	must(os.MkdirAll(filepath.Join(root, "dest", "my uploads"), 0755))
+	must(os.MkdirAll(filepath.Join(root, "Drop Box", "sub"), 0755))
+	pool := []string{"Drop Box", "dest", "Uploads", ".", "..", "", "sub", "DROP BOX", "drop box", "my uploads", "dest/../Drop Box", "Uploads/../dest",
+		"x/upload/../../dest", "Drop Box/.", "Drop Box/", "dest/Drop Box", "./Uploads", "Uploads/..", "nope"}
+	special := func(dirRel string) bool {
+		b := strings.ToLower(filepath.Base(dirRel))
+		return strings.Contains(b, "upload") || strings.Contains(b, "drop box")
+	}
+	nProbes := 240
+	if tier == "thorough" {
+		nProbes = 2400
+	}
+	for k := 0; k < nProbes; k++ {
+		kind := 1 + k%3
+		n := 1 + rng.Intn(4)
+		var items [][]byte
+		declared := -1
+		if rng.Intn(4) == 0 {
+			for i := 0; i < n; i++ {
+				items = append(items, []byte(pool[rng.Intn(len(pool))]))
+			}
+			switch rng.Intn(8) {
+			case 0:
+				if n > 1 {
+					declared = 1 + rng.Intn(n-1) // declared count below the number of items on the wire
+				}
+			case 1:
+				declared = n + 1 // above
+			}
+		} else {
+			// a chosen directory, addressed through a disguise
+			target := []string{"Drop Box", "dest/Drop Box", "Uploads", "dest/my uploads", "dest", "Drop Box/sub"}[rng.Intn(6)]
+			comps := strings.Split(target, "/")
+			add := func(xs ...string) {
+				for _, x := range xs {
+					items = append(items, []byte(x))
+				}
+			}
+			switch rng.Intn(9) {
+			case 0:
+				add(comps...)
+			case 1:
+				add(comps...)
+				add(".")
+			case 2:
+				add(comps...)
+				add("")
+			case 3:
+				add(comps...)
+				add("sub", "..")
+			case 4:
+				add("dest", "..")
+				add(comps...)
+			case 5:
+				add(target)
+			case 6:
+				add("x/../" + target)
+			case 7: // the declared count covers only a decoy; the rest of the items lead to the target
+				decoy := []string{"dest", "Uploads", "Drop Box"}[rng.Intn(3)]
+				add(decoy, "..")
+				add(comps...)
+				declared = 1
+			default:
+				add(comps...)
+				declared = len(comps) + 1
+			}
+		}
+		field := encodePath(items)
+		if declared >= 0 {
+			copy(field[0:2], be16(declared))
+		}
+		b := all
+		lack := 30
+		if kind != 1 {
+			lack = 25
+		}
+		if rng.Intn(5) != 0 {
+			b[lack/8] &^= 1 << (7 - lack%8)
+		}
+		cc, _ := env.NewClient("~c~", b, "10.5.0.1:1")
+		env.TakeSent()
+		serial++
+		name := []byte(fmt.Sprintf("probe%d", serial))
+		var req c05Req
+		switch kind {
+		case 1:
+			req = c05Req{mobius.HandleGetFileNameList, hotline.TranGetFileNameList, []hotline.Field{fn(hotline.FieldFilePath, field)}}
+		case 2:
+			req = c05Req{mobius.HandleUploadFile, hotline.TranUploadFile, []hotline.Field{fn(hotline.FieldFileName, name), fn(hotline.FieldFilePath, field)}}
+		default:
+			req = c05Req{mobius.HandleUploadFolder, hotline.TranUploadFldr, []hotline.Field{fn(hotline.FieldFileName, name), fn(hotline.FieldFilePath, field), fn(hotline.FieldTransferSize, be32(10)), fn(hotline.FieldFolderItemCount, be16(1))}}
+		}
+		t := hotline.NewTransaction(req.typ, cc.ID, req.fields...)
+		res, panicked := callHandler(req.h, cc, &t)
+		env.TakeSent()
+		d, bad := byte(0), byte(0)
+		if isErrReply(res) {
+			d = 1
+		}
+		if panicked {
+			d = 3
+		}
+		held := b == all
+		if !held && d == 0 && len(res) == 1 {
+			if kind == 1 {
+				for _, f := range res[0].Fields {
+					if strings.Contains(string(f.Data), "secret.txt") {
+						bad = 1 // the content of a drop box was revealed without view-drop-boxes
+					}
+				}
+			} else {
+				typ := hotline.FileUpload
+				if kind == 3 {
+					typ = hotline.FolderUpload
+				}
+				for _, ft := range cc.ClientFileTransferMgr.Get(typ) {
+					if full, err := hotline.ReadPath(ft.FileRoot, ft.FilePath, ft.FileName); err == nil {
+						rel, _ := filepath.Rel(root, filepath.Dir(full))
+						if !special(rel) {
+							bad = 1 // an upload was granted into a directory that is neither an upload folder nor a drop box
+						}
+					}
+				}
+			}
+		}
+		env.Srv.ClientMgr.Delete(cc.ID)
+		cs.Add(Case{Kind: fmt.Sprintf("path-probe-%d", kind), Ops: []Op{mkOp(3, fmt.Sprintf("path-probe-%d", kind), []byte{byte(kind)}, b[:], field)},
+			Obs: [][][]byte{{{d}, {bad}}}, NonTrivial: !held})
 	}
 	// display name: adopted iff any-name is held, never an error
 	for p := 0; p < 64; p++ {
